@@ -443,7 +443,8 @@ impl MixedColBuffer {
                 RawVal::Str(s) => string_col.push(&s),
                 RawVal::Int(i) => string_col.push(&i.to_string()),
                 RawVal::Float(f) => string_col.push(&f.to_string()),
-                RawVal::Null => {}
+                // Keep one cell per row: the null map marks it as NULL
+                RawVal::Null => string_col.push(""),
             }
         }
         string_col.finalize(name, present)
